@@ -483,6 +483,19 @@ func (s *sim) chaos() {
 		_ = s.admin.Set(pathActiveNodes, []string{})
 	case "remove_host":
 		_ = s.admin.Delete(dcs.JoinPath(dcs.PathHANodesPrefix, last))
+	case "remove_then_readd_host":
+		_ = s.admin.Delete(dcs.JoinPath(dcs.PathHANodesPrefix, last))
+		time.AfterFunc(25*time.Second, func() {
+			_ = s.admin.Set(dcs.JoinPath(dcs.PathHANodesPrefix, last), mysql.NodeConfiguration{Priority: 0})
+		})
+	case "move_host_to_cascade_and_back":
+		_ = s.admin.Set(dcs.PathCascadeNodesPrefix, "")
+		_ = s.admin.Set(dcs.JoinPath(dcs.PathCascadeNodesPrefix, last), mysql.CascadeNodeConfiguration{StreamFrom: s.hosts[0]})
+		_ = s.admin.Delete(dcs.JoinPath(dcs.PathHANodesPrefix, last))
+		time.AfterFunc(25*time.Second, func() {
+			_ = s.admin.Set(dcs.JoinPath(dcs.PathHANodesPrefix, last), mysql.NodeConfiguration{Priority: 0})
+			_ = s.admin.Delete(dcs.JoinPath(dcs.PathCascadeNodesPrefix, last))
+		})
 	case "remove_master_host":
 		_ = s.admin.Delete(dcs.JoinPath(dcs.PathHANodesPrefix, s.hosts[0]))
 	case "add_host_no_server":
@@ -541,7 +554,7 @@ func (s *sim) chaos() {
 	s.W.Env("chaos", "", s.cfg.Chaos)
 }
 
-var simChaos = []string{"ghost_master", "active_ghost", "active_empty", "remove_host", "remove_master_host", "add_host_no_server", "cascade_ghost",
+var simChaos = []string{"remove_then_readd_host", "move_host_to_cascade_and_back", "ghost_master", "active_ghost", "active_empty", "remove_host", "remove_master_host", "add_host_no_server", "cascade_ghost",
 	"cascade_self", "garbage_switch", "garbage_master", "garbage_active", "garbage_maintenance", "garbage_health", "garbage_last_switch",
 	"switch_to_ghost", "switch_from_ghost", "all_sql_fail", "all_sql_hang", "dcs_down", "replica_not_replica", "master_is_replica_of_ghost"}
 
@@ -730,6 +743,19 @@ func simRun(t *testing.T, out *verifh.Out, cfg simCfg, idx int) []string {
 		}
 		// who issued what: every mutating statement on a server other than the issuer's own, and every cluster-wide
 		// coordination write, with the lock owner at that moment
+		// what every daemon says about its own server at the end
+		health := map[string]any{}
+		for _, h := range s.all {
+			var ns struct {
+				PingOk bool `json:"ping_ok"`
+			}
+			p := s.procs[h]
+			if s.Tree.GetJSON("health/"+h, &ns) {
+				health[h] = map[string]any{"ping_ok": ns.PingOk, "daemon_alive": p != nil && p.alive}
+			} else {
+				health[h] = map[string]any{"missing": true, "daemon_alive": p != nil && p.alive}
+			}
+		}
 		acts := s.foreignActs()
 		digest := s.W.Digest()
 		conns := map[string]int{}
@@ -742,7 +768,7 @@ func simRun(t *testing.T, out *verifh.Out, cfg simCfg, idx int) []string {
 		line = map[string]any{"k": "simrun", "idx": idx, "cfg": cfg, "hosts": s.hosts, "all": s.all, "warm_ok": warmOK, "warm_why": warmWhy,
 			"canonical": canon, "why": why, "master_key": mk, "final": digest, "acked": nAcked, "acked_set": ackedSet, "lost": lost,
 			"samples": s.compress(), "keys": keys, "recovery": rec, "panics": panics, "foreign_acts": acts,
-			"crashed": s.crashed, "crash_call": s.crashCall, "crash_state": s.crashState, "request_calls": s.requestCalls(), "call_log": s.callLog, "conns": conns, "env": s.envLog()}
+			"crashed": s.crashed, "crash_call": s.crashCall, "crash_state": s.crashState, "health": health, "request_calls": s.requestCalls(), "call_log": s.callLog, "conns": conns, "env": s.envLog()}
 	})
 	time.Sleep(20 * time.Millisecond)
 	line["goroutines_before"] = g0
@@ -955,7 +981,10 @@ func TestVerifC07(t *testing.T) {
 		{3, "crash_mysql", ""}, {4, "isolate", ""}, {2, "crash_mysql", ""}}
 	stride := verifh.Pick(15, 1)
 	idx := 0
-	for _, b := range bases {
+	for bi, b := range bases {
+		if v := os.Getenv("VERIF_C07_BASE"); v != "" && v != fmt.Sprint(bi) {
+			continue
+		}
 		c := simCfg{N: b.n, WaitCount: 1 + r.Intn(2), Failover: true, MasterFirst: r.Intn(2) == 0, FailDelay: 0, OffsetMs: r.Intn(2000),
 			Fault: b.fault, Target: "h1", Request: b.request, DurationS: 0, CrashAfter: -1}
 		if b.fault == "request" {
@@ -988,6 +1017,14 @@ func TestVerifC07(t *testing.T) {
 			pts = append(pts, i)
 		}
 		sort.Ints(pts)
+		if v := os.Getenv("VERIF_C07_AT"); v != "" {
+			pts = nil
+			for i, w := range calls {
+				if strings.Contains(w, v) {
+					pts = append(pts, i+1)
+				}
+			}
+		}
 		for n, i := range pts {
 			succs := []string{"same", "other"}
 			if !verifh.Thorough() {
